@@ -7,6 +7,7 @@ import (
 	"strings"
 
 	otter "github.com/maypok86/otter/v2"
+	"github.com/maypok86/otter/v2/internal/verif/vsched"
 )
 
 // cache.conc: a generic concurrent cache scenario. Native set-up ops, 2-3
@@ -27,6 +28,7 @@ func init() {
 }
 
 type opRec struct {
+	tid       int // scheduler thread id of the executing thread
 	th        int
 	op        string
 	res       OpResult
@@ -70,7 +72,7 @@ func concBody(x *Exec, raw json.RawMessage) {
 			for _, op := range ops {
 				c := x.Now()
 				res := r.Do(ti, op)
-				recs[ti] = append(recs[ti], opRec{th: ti, op: op, res: res, call: c, ret: x.Now()})
+				recs[ti] = append(recs[ti], opRec{tid: vsched.CurID(), th: ti, op: op, res: res, call: c, ret: x.Now()})
 			}
 		})
 	}
@@ -237,6 +239,40 @@ func concBody(x *Exec, raw json.RawMessage) {
 
 	if has(p.Oracles, "expired") || has(p.Oracles, "seq-equiv") {
 		seqEquiv(x, p, recs)
+	}
+
+	if has(p.Oracles, "singleflight") {
+		tids := make([]int, len(recs))
+		for ti := range recs {
+			tids[ti] = ti
+			if len(recs[ti]) > 0 {
+				tids[ti] = recs[ti][0].tid
+			}
+		}
+		checkSingleFlight(x, r, p, recs, tids)
+		// a later Get loads afresh: no in-flight record may be left behind (audited) and the loader runs again
+		if st := c.VerifStatus(); st.InFlightCalls != 0 {
+			x.Fail("inflight-left", "singleflight@"+p.Label, "%d in-flight load records remain after every call returned", st.InFlightCalls)
+		}
+		for k := 1; k <= 3; k++ {
+			if _, ok := contents[k]; ok {
+				continue
+			}
+			before := len(r.Loads)
+			res := r.Do(-1, fmt.Sprintf("load %d val", k))
+			if len(r.Loads) != before+1 || !res.OK {
+				x.Fail("stale-flight", "Get@"+p.Label, "a fresh Get(%d) after quiescence did not invoke the loader exactly once (calls %d, result %s)", k, len(r.Loads)-before, res.String())
+			}
+		}
+	}
+	if has(p.Oracles, "noclobber") {
+		checkNoClobber(x, r, p, recs, contents)
+	}
+	if has(p.Oracles, "lin") {
+		checkLinearizable(x, r, p, setupRecs, recs, nAtomicSetup)
+	}
+	if has(p.Oracles, "stats") {
+		checkStatsConc(x, r, p, recs)
 	}
 
 	if has(p.Oracles, "ledger") && !p.Cfg.NoHandlers {
